@@ -101,6 +101,11 @@ ConfBySel(sel) == IF \E c \in reg : c.sel = sel THEN CHOOSE c \in reg : c.sel = 
 Allowed(c, p) == (c.allow = {"*"} \/ p \in c.allow) /\ p \notin c.deny
 \* _might_have_parameter (1118-1141)
 MightHave(c, p) == c.vk \/ p \in NamedParams(c)
+\* a function that somebody else's functools.wraps decorator wraps when it is registered (c.deco): parameter names are
+\* validated against the innermost function (1155-1157 follows __wrapped__), but the wrapper that Gin builds only sees
+\* the decorator's own (STAR args, STARSTAR kwargs) signature (getfullargspec does not follow __wrapped__): no positional
+\* names, no defaults; Python binds the merged arguments to the inner function afterwards
+Outer(c) == IF c.deco THEN [c EXCEPT !.pos = <<>>, !.npd = 0, !.kwo = <<>>, !.kwd = {}, !.va = TRUE, !.vk = TRUE, !.dflt = {}] ELSE c
 
 (* finite maps as sets of <<key, value>> pairs *)
 Dom(m) == { e[1] : e \in m }
@@ -210,10 +215,11 @@ Fail(S, st, missing) ==
    missing |-> missing, ran |-> FALSE]
 
 CallW(cf, S, c, scope, call) ==
-  LET args     == IF c.kind \in {"cls", "meth"} THEN <<Self>> \o call.pargs ELSE call.pargs
+  LET oc       == Outer(c)
+      args     == IF c.kind \in {"cls", "meth"} THEN <<Self>> \o call.pargs ELSE call.pargs
       kwargs   == call.kw
       newkw0   == Overlay(cf, c.sel, scope)                                   \* 1507
-      sa       == SigArgs(c)
+      sa       == SigArgs(oc)
       nnamed   == IF Len(args) <= Len(sa) THEN Len(args) ELSE Len(sa)
       argnames == SubSeq(sa, 1, nnamed)                                        \* 1511
       vaReq    == \E i \in (nnamed + 1)..Len(args) : IsReq(args[i])            \* 1513-1519
@@ -223,7 +229,7 @@ CallW(cf, S, c, scope, call) ==
       \* 1537-1539: positionally supplied names lose their binding (unless REQUIRED)
       newkw1   == ODelAll(newkw0, ToSet(argnames) \ reqNames)
       \* 1541-1554: operative values
-      opv0     == Update(ConfigurableDefaults(c), OSet(newkw1))
+      opv0     == Update(ConfigurableDefaults(oc), OSet(newkw1))
       opv1     == DelAll(opv0, (ToSet(argnames) \ reqNames) \cup (Dom(kwargs) \ callerReqKw))
       S1       == OperMerge(S, ScopeStr(scope), c.sel, opv1)                   \* 1560-1562
       \* fix of F6: caller keywords (not REQUIRED) are dropped before the deep copy
@@ -240,17 +246,17 @@ CallW(cf, S, c, scope, call) ==
       newargs  == [i \in 1..Len(args) |->
                      IF i \in reqIdx /\ argnames[i] \in Dom(newkw3) THEN Get(newkw3, argnames[i]) ELSE args[i]]
       newkw4   == DelAll(newkw3, { argnames[i] : i \in reqIdx })
-      missSig  == { p \in ToSet(SigRequired(c)) :
+      missSig  == { p \in ToSet(SigRequired(oc)) :
                       p \notin ToSet(argnames) /\ p \notin Dom(kwargs) /\ p \notin Dom(newkw4) }
       missKw   == { p \in callerReqKw : p \notin Dom(newkw4) }
       kwargs2  == DelAll(kwargs, callerReqKw \ missKw)
       \* order in which the code encounters them: positional, signature-required, caller kw
       missSeq  == SelectSeq(argnames, LAMBDA p : p \in missPos)
-                  \o SelectSeq(SigRequired(c), LAMBDA p : p \in missSig /\ p \notin missPos)
+                  \o SelectSeq(SigRequired(oc), LAMBDA p : p \in missSig /\ p \notin missPos)
                   \o SelectSeq(NameOrder, LAMBDA p : p \in missKw \ (missPos \cup missSig))
   IN
   IF missPos \cup missSig \cup missKw # {}
-  THEN Fail(S2, "RuntimeError", OrderBySig(c, missSeq))                        \* 1594-1600
+  THEN Fail(S2, "RuntimeError", OrderBySig(oc, missSeq))                        \* 1594-1600
   ELSE
   LET finalkw == Update(newkw4, kwargs2)                                       \* 1604
       b       == PyBind(c, newargs, finalkw)                                   \* 1607
